@@ -391,10 +391,10 @@ def run_check(prop, tier, repo, jobs, seed):
         "harness_errors": harness_errors[:10],
     }
     cov["evaluations"] = int(agg.get("obligations", 0) + len(xh_results))
-    cov["distinct_nontrivial"] = int(agg.get("discharged_solver", 0) + agg.get("refuted", 0) + xh_conf + xh_ref)
+    cov["distinct_nontrivial"] = int(agg.get("discharged_solver", 0) + agg.get("refuted", 0) + agg.get("raw_confirmed", 0) + xh_conf + xh_ref)
     cov["rule"] = ("one evaluation = one obligation posed on one explored path of a symbolic harness, or one CrossHair condition (each covering all "
                    "paths within its pre: bounds); non-trivial and distinct = decided by the solver itself (z3 unsat/sat on a residual that did not "
-                   "normalise to zero, or a CrossHair verdict), counted per obligation/condition; obligations closed by the normal form alone are not counted here")
+                   "normalise to zero, z3 unsat on the un-normalised expression of an identity the normal form closed, or a CrossHair verdict), counted per obligation/condition; obligations closed by the normal form alone are not counted here")
     evidence["coverage"] = cov
     evidence["violations"] = n_viol
     evidence["wall_s"] = round(time.time() - t0, 2)
